@@ -659,8 +659,13 @@ func (b *BaseStore) Sync(ctx context.Context, heads []ipfslog.Entry) error {
 	verified := make([]ipfslog.Entry, 0, len(heads))
 
 	for _, h := range heads {
-		if h == nil {
-			b.Logger().Debug("warning: Given input entry was 'null'.")
+		// a decoded message can carry null heads (a nil *entry.Entry inside a
+		// non-nil interface) or heads lacking the fields every check below
+		// relies on: they cannot be verified, so they are discarded
+		if h == nil || !h.Defined() || h.GetIdentity() == nil || h.GetIdentity().Signatures == nil ||
+			h.GetClock() == nil || !h.GetClock().Defined() ||
+			!h.GetHash().Defined() || len(h.GetKey()) == 0 || len(h.GetSig()) == 0 {
+			b.Logger().Debug("warning: Given input entry was 'null' or incomplete.")
 			continue
 		}
 
